@@ -142,6 +142,18 @@ func honest(t vlib.TB, si schemeInfo, kseed, eseed []byte) (*caseCtx, bool) {
 		vlib.Report(t, "C01/size/"+name+"/ct", fmt.Sprintf("ct %d (adv %d) ss %d (adv %d)", len(ct), s.CiphertextSize(), len(ss), s.SharedKeySize()))
 		return nil, false
 	}
+	// the returned slices belong to the caller, spare capacity included: writing behind the end of one of
+	// them (what append does) must not change the other results (they are compared with the second call's)
+	for _, b := range [][]byte{ct, ss, pkb, skb} {
+		full := b[:cap(b)]
+		for i := len(b); i < len(full); i++ {
+			full[i] ^= 0xA5
+		}
+	}
+	if !bytes.Equal(ct, ct2) || !bytes.Equal(ss, ss2) || !bytes.Equal(pkb, pkb2) || !bytes.Equal(skb, skb2) {
+		vlib.Report(t, "C01/returned-slices-share-storage/"+name, fmt.Sprintf("kseed %x eseed %x: writing into the spare capacity of one returned slice (ct cap %d len %d, ss cap %d len %d, pk cap %d len %d, sk cap %d len %d) changed another result", kseed, eseed, cap(ct), len(ct), cap(ss), len(ss), cap(pkb), len(pkb), cap(skb), len(skb)))
+		return nil, false
+	}
 	got, err := s.Decapsulate(sk, ct)
 	if err != nil || !bytes.Equal(got, ss) {
 		vlib.Report(t, "C01/roundtrip/"+name, fmt.Sprintf("kseed %x eseed %x: Decapsulate err=%v got %x want %x", kseed, eseed, err, got, ss))
